@@ -139,8 +139,24 @@ def whole(job):
     cols = ['x', 'y', 'z'][:job['ndim']][::-1]
     rows = [[*map(float, p), t] for t, f in enumerate(job['frames']) for p in f]
     df = pd.DataFrame(rows, columns=cols + ['frame'])
-    out = tp.link(df, job.get('sr_obj', linkgen.sr_float(job['sr'])), pos_columns=cols, memory=job['memory'], link_strategy=job['strategy'])
+    # the caller keeps ONE pos_columns list per dimensionality and hands it to every call (a module-level constant in an
+    # analysis script): it is an argument like the table, and a call must leave it as it was
+    shared_cols = POS_COLUMNS.setdefault(job['ndim'], list(cols))
+    if shared_cols != cols:
+        raise ArgumentModified('the pos_columns list handed to an earlier trackpy.link call now reads %r (was %r)' % (shared_cols, cols))
+    out = tp.link(df, job.get('sr_obj', linkgen.sr_float(job['sr'])), pos_columns=shared_cols, memory=job['memory'], link_strategy=job['strategy'])
+    if shared_cols != cols:
+        bad = list(shared_cols)
+        shared_cols[:] = cols
+        raise ArgumentModified('trackpy.link changed the pos_columns list it was given: %r -> %r (later calls handed the same list link other columns)' % (cols, bad))
     return [[int(x) for x in out[out['frame'] == t]['particle'].values] for t in range(len(job['frames']))]
+
+
+POS_COLUMNS = {}
+
+
+class ArgumentModified(Exception):
+    pass
 
 
 def nsteps(job):
@@ -440,6 +456,9 @@ def _run(chk):
             inter = run_schedule(jobs, sched)
             solo = {j: run_schedule(jobs, [x for x in sched if x == j])[j] for j in range(len(jobs))}
             again = run_schedule(jobs, sched)
+        except ArgumentModified as e:
+            chk.violation('argument list modified', str(e), dict(kind='schedule', case=jsonable_jobs(jobs, sched)))
+            continue
         except Exception as e:
             chk.violation('schedule raised', 'interleaved jobs raised %r' % e, dict(kind='schedule', case=jsonable_jobs(jobs, sched)))
             continue
